@@ -90,7 +90,7 @@ def signature(v):
 def sig_class(sig):
     """what a shrunk scenario must still exhibit: same oracle, same property, same kind of message."""
     o, p, m = sig.split("|", 2)
-    return (o, p, m[:48])
+    return (o, p, m[:90])
 
 
 # ---------------------------------------------------------------------------
